@@ -195,13 +195,28 @@ class RemoteProxy(BaseProxy):
         # nobody would ever answer this request: the channel's receiver
         # has already seen the end of the stream, so our reader task is
         # done (or finishes while we wait).
+        # The same holds when the connection is reset: the channel's
+        # receiver task then ends without failing the outstanding requests
+        # and without telling our reader task.
+        watched = {self._reader_task}
+        receiver = getattr(self._channel, "_receiver_task", None)
+        if receiver is not None:
+            watched.add(receiver)
         response = asyncio.ensure_future(self._channel.send(request))
         try:
             await asyncio.wait(
-                {response, self._reader_task}, return_when=asyncio.FIRST_COMPLETED
+                {response, *watched}, return_when=asyncio.FIRST_COMPLETED
             )
             if response.done():
                 return response.result()
+            if receiver is not None and receiver.done() and not response.done():
+                # Give a clean end of stream the chance to fail the request
+                # with its own error (IncompleteReadError).
+                await asyncio.sleep(0)
+                if response.done():
+                    return response.result()
+                if not receiver.cancelled():
+                    receiver.exception()  # retrieved, so that it is not logged
         finally:
             response.cancel()
         raise ConnectionResetError("The simulator has closed its connection.")
